@@ -56,7 +56,9 @@ ENGINE = "E2-netsim"
 TECHNIQUE = "runtime monitoring: event-order oracle over process/finish/notifyFinish/wire bytes with connection loss injected at every schedule boundary"
 RULE = ("random schedules: 1-6 pipelined requests (GET/HEAD/POST with Content-Length or chunked body, optional Connection: close / "
         "HTTP/1.0, optionally one stray blank line before a request / between two pipelined requests) cut into random segments, interleaved with scheduler steps, transport pause/resume and extra notifyFinish "
-        "calls, plus two fixed pipelines paused by the transport after every byte offset (and again 7 bytes later); per request the application finishes at once / after k steps (maybe after a partial write) / never and takes "
+        "calls, plus two fixed pipelines paused by the transport after every byte offset (and again 7 bytes later), plus pipelines with "
+        "more than 16 KiB buffered behind an unfinished request (the channel's own read-ahead pause) x transport pause/resume at every "
+        "pair of positions relative to deliveries and response completions; per request the application finishes at once / after k steps (maybe after a partial write) / never and takes "
         "0-3 notifyFinish Deferreds; for each schedule one run per operation boundary with the connection lost there.  A case is "
         "distinct by (schedule, plans, loss point); non-trivial = at least one request was handed to the application.")
 ASSUMPTIONS = ["trusted base: netsim.SimTransport (write after loss is dropped; pause/resume of the registered streaming producer) and "
@@ -70,7 +72,8 @@ FLOORS = {"runs": 5000, "process_events": 5000, "notify_fired_ok": 2000, "notify
           "finish_inside_resumeproducing": 50, "producer_resumed_by_transport": 100, "notify_kind_raises": 500, "notify_kind_paused": 500,
           "notify_kind_chained": 500, "bodiless_responses_on_wire_checked": 500, "expect_100_requests_processed": 300,
           "runs_unjudged_after_app_exception": 100, "progress_runs_judged": 1000, "progress_requests_answered": 2000,
-          "pauses_while_request_partially_received": 1000, "pauses_between_requests": 300, "pause_at_every_offset_runs": 1000}
+          "pauses_while_request_partially_received": 1000, "pauses_between_requests": 300, "pause_at_every_offset_runs": 1000,
+          "read_ahead_family_runs": 500, "read_ahead_pauses": 300, "read_ahead_and_transport_pause_overlaps": 100}
 READY = True
 
 
@@ -218,6 +221,7 @@ class World:
         self.losing = False
         self.unjudged = None  # set when the application raised on purpose (statement silent)
         self.paused_deferreds = []
+        self.read_ahead_paused = False
         self.server = c18.Server("channel", responder=self.on_process, defer=False, sync_close=sync_close)
         if sync_close:  # the server's own loseConnection() reports the loss re-entrantly, through our bookkeeping
             self.server.transport.on_sync_close = self._sync_close
@@ -470,12 +474,18 @@ class World:
             try:
                 if kind == "data":
                     if not self.lost:
+                        before = sum(1 for e in srv.events if e[:2] == ("srv", "pauseProducing"))
                         srv.feed(op[1])
+                        if sum(1 for e in srv.events if e[:2] == ("srv", "pauseProducing")) > before:
+                            self.read_ahead_paused = True  # the channel itself stopped reading (> 16 KiB pipelined behind a request)
+                            self.ctx.count("read_ahead_pauses")
                 elif kind == "step":
                     self.step()
                 elif kind == "pause":
                     if not self.lost and srv.transport.producer is not None:
                         self.ctx.count("pause_ops")
+                        if self.read_ahead_paused and srv.transport.reading_paused:
+                            self.ctx.count("read_ahead_and_transport_pause_overlaps")
                         ch = getattr(srv.proto, "_channel", None)  # read only to label the counter
                         if ch is not None and not ch._handlingRequest:
                             self.ctx.count("pauses_while_request_partially_received" if ch.requests else "pauses_between_requests")
@@ -720,9 +730,43 @@ def pause_at_every_offset(ctx):
                         return
 
 
+def read_ahead_family(ctx):
+    """More than 16 KiB pipelined behind an unfinished request (the channel stops reading by itself), combined with a
+    transport pause and a transport resume at every pair of positions relative to the deliveries and to the response
+    completions.  The driver holds bytes while reading is paused for either reason.  Judged by bounded progress."""
+    big = b"x" * 17000
+    variants = [
+        [b"GET /r0 HTTP/1.1\r\nHost: h\r\n\r\n", b"POST /r1 HTTP/1.1\r\nHost: h\r\nContent-Length: 17000\r\n\r\n" + big, b"GET /r2 HTTP/1.1\r\nHost: h\r\n\r\n"],
+        [b"GET /r0 HTTP/1.1\r\nHost: h\r\n\r\n", b"POST /r1 HTTP/1.1\r\nHost: h\r\nTransfer-Encoding: chunked\r\n\r\n4268\r\n" + big + b"\r\n0\r\n\r\n",
+         b"GET /r2 HTTP/1.1\r\nHost: h\r\n\r\n", b"GET /r3 HTTP/1.1\r\nHost: h\r\n\r\n"],
+    ]
+    n = 0
+    for vi, parts in enumerate(variants):
+        reqs = [{"method": p.split(b" ")[0], "closing": False, "bytes": p, "stray_crlf_before": False} for p in parts]
+        # the big request arrives in 6000-byte pieces (its last piece pushes the buffer over 16 KiB and makes the channel stop
+        # reading); what follows it arrives in separate pieces, which the driver holds while reading is paused
+        datas = [("data", parts[0])] + [("data", parts[1][i:i + 6000]) for i in range(0, len(parts[1]), 6000)] + [("data", p) for p in parts[2:]]
+        for d0 in (1, 2, 3):
+            for d1 in (1, 2):
+                plans = [plain_plan("later", d0), plain_plan("later", d1)] + [plain_plan("now") for _ in parts[2:]]
+                base = datas + [("step",)] * (d0 + d1 + 2)
+                for i in range(1, len(base) + 1):
+                    for j in range(i, len(base) + 1):
+                        n += 1
+                        if not ctx.owns(n):
+                            continue
+                        ops = base[:i] + [("pause",)] + base[i:j] + [("resume",)] + base[j:]
+                        with LogCapture() as cap:
+                            w = run_one(ctx, reqs, ops, plans, len(ops), cap, ("read-ahead", vi, d0, d1, i, j), False)
+                        ctx.count("read_ahead_family_runs")
+                        if w.problems:
+                            return
+
+
 def run(ctx):
     refhttp.selftest()
     pause_at_every_offset(ctx)
+    read_ahead_family(ctx)
     for i in ctx.cases(1000, 40000):
         w, ops, plans, b = run_schedule(ctx, i)
         if i < 2 * ctx.nshards and ctx.shard == 0:
@@ -733,8 +777,8 @@ def replay(ctx, w):
     """Schedules are a pure function of (seed, case index): regenerate and re-run the recorded loss point."""
     x = w["witness"]
     if isinstance(x.get("case_index"), list):
-        print("replay: this case belongs to the enumerated pause-at-every-offset family; re-run the check (it is deterministic)")
-        pause_at_every_offset(ctx)
+        print("replay: this case belongs to an enumerated family (%s); re-running that family (it is deterministic)" % x["case_index"][0])
+        (read_ahead_family if x["case_index"][0] == "read-ahead" else pause_at_every_offset)(ctx)
         return
     if x.get("case_index") is None:
         print("replay: witness has no case index; re-run with VERIF_SEED=%s" % w.get("seed"))
